@@ -255,6 +255,13 @@ type ReDKG struct {
 	Messages     []storage.Message `json:"messages"`
 }
 
+// IsSigningPhaseEvent tells the events of the signing phase (proposals, partial signatures, failure
+// reports, reconstructed signatures) from those of the key generation.
+func IsSigningPhaseEvent(event fsm.Event) bool {
+	return strings.HasPrefix(string(event), "event_signing_") ||
+		event == SignatureReconstructed || event == SignatureReconstructionFailed
+}
+
 // GenerateReDKGMessage returns a ReDKG message based on an append log dump. newCommPubKeys will be used
 // add new public communication keys to each participant; this value can be nil.
 func GenerateReDKGMessage(messages []storage.Message, newCommPubKeys map[string][]byte) (*ReDKG, error) {
@@ -284,8 +291,11 @@ func GenerateReDKGMessage(messages []storage.Message, newCommPubKeys map[string]
 				})
 			}
 		}
-		if fsm.Event(msg.Event) == signing_proposal_fsm.EventSigningStart {
-			break
+		// a re-initialisation replays the key generation: the messages of the signing phase have no
+		// part in it, wherever they stand in the log (a signing proposal posted before the key
+		// generation was over must not cut the file short)
+		if IsSigningPhaseEvent(fsm.Event(msg.Event)) {
+			continue
 		}
 
 		reDKG.Messages = append(reDKG.Messages, msg)
